@@ -369,6 +369,61 @@ def stream_prog(r: Run, nprog):
         check_program(r, 'prog', text, (n, ops), use_qiskit, prog=p)
 
 
+def stream_body(r: Run, full, nrandom):
+    """Gate-body arguments, grammar-directed (deterministic, the same on every seed): every
+    operator form applied directly to formal parameters through 1-3 levels of user-gate
+    nesting (`nested_form_programs`), every operator shape of depth <= 2 over {formal,
+    literal, pi} as an argument of rz / u3 / U / a nested gate (`body_shape_programs`),
+    each under positive, mixed and negative actuals; plus seeded random bodies made of
+    direct forms only."""
+    ck, rng = r.ck, r.rng
+    progs = [('nested', p) for p in gen.nested_form_programs(r.builtins)]
+    progs += [('shape', p) for p in gen.body_shape_programs(r.builtins, full)]
+    for _ in range(nrandom):
+        p = gen.Prog()
+        p.stmts += [('include',), ('qreg', 'q', 2)]
+        names = []
+        for d in range(rng.randint(1, 3)):
+            fs = rng.sample(['a', 'b', 'theta'], rng.randint(1, 2))
+            body = []
+            for _ in range(rng.randint(1, 3)):
+                if names and rng.random() < 0.6:
+                    g, k = rng.choice(names)
+                else:
+                    g, k = rng.choice([('rz', 1), ('u2', 2), ('u3', 3), ('rx', 1)])
+                acts = []
+                while len(acts) < k:
+                    e = gen.direct_form(rng, fs)
+                    if gen.screen_expr(rng, e, fs):
+                        acts.append(e)
+                body.append(('call', g, acts, ['x']))
+            p.stmts.append(('gatedef', f'g{d}', fs, ['x'], body))
+            names.append((f'g{d}', len(fs)))
+        calls = []
+        for va, vb in gen.BINDINGS:
+            for g, k in names:
+                calls.append(('call', g, [gen._lit(va), gen._lit(vb)][:k], [('q', 0)]))
+        gen._keep_calls(p, r.builtins, calls)
+        progs.append(('random', p))
+    for kind, p in progs:
+        try:
+            n, cregs, ops = gen.Ref(r.builtins).run(p)
+        except Bad:
+            ck.bump('body_skipped')
+            continue
+        if _bad_values(ops) or not any(s[0] == 'call' for s in p.stmts):
+            ck.bump('body_skipped')
+            continue
+        text = gen.render(p, rng, extra=0.0)
+        ck.count(('body', sig_key(text)))
+        ck.bump('body_programs', kind)
+        if ck.coverage.get('body_programs', {}).get(kind) == 4:
+            ck.sample({'stream': 'body', 'kind': kind, 'program': text}, limit=16)
+        check_program(r, 'body', text, (n, ops), True, prog=p)
+    ck.coverage['body_expression_shapes'] = len(gen._shapes())
+    ck.coverage['body_expressions'] = len(gen.body_shape_exprs(full))
+
+
 def _bad_values(ops):
     for op in ops:
         if op[0] == 'G' and not all(gen.finite_ok(float(p)) for p in op[3]):
@@ -935,6 +990,7 @@ def run_all(r: Run, proved):
     stream_lib(r, 1500 if thorough else 120)
     stream_expr(r, 12000 if thorough else 700)
     stream_regress(r, 200 if thorough else 16)
+    stream_body(r, thorough, 2000 if thorough else 60)
     stream_prog(r, 30000 if thorough else 1000)
     stream_malformed(r, 6000 if thorough else 300)
     lex_texts = [unesc(l[7:]) for l in r.requests if l.startswith('decode ')]
